@@ -110,14 +110,30 @@ Theorem C10_prune_partial_reparent_refuted :
   last_exp (spec_from (init0 false) h_gap_fail) = EVal (RRef (5, 6)) /\
   last_out (run_from fixed (init0 false) h_gap_fail) = Ok (RRef (5, 6)).
 Proof. exact prune_partial_reparent_refuted. Qed.
-(* adopted from zrnt's graph, with or without a prune: a head computed from an empty-slot node that is not the lowest node of its
-   root stays on that root's empty-slot chain (Impl and Spec agree) *)
-Theorem C10_head_from_gap_start_adopted :
-  last_out (run_from fixed (init0 false) (removelast h_gap_fail ++ [OHead])) = Ok (RRef (3, 5)) /\
-  last_exp (spec_from (init0 false) (removelast h_gap_fail ++ [OHead])) = EVal (RRef (3, 5)) /\
-  last_out (run_from fixed (init0 false) (firstn 7 h_gap_fail ++ [OSetPin 3 4; OHead])) = Ok (RRef (3, 5)) /\
-  last_exp (spec_from (init0 false) (firstn 7 h_gap_fail ++ [OSetPin 3 4; OHead])) = EVal (RRef (3, 5)).
-Proof. exact head_from_gap_start_adopted. Qed.
+(* reported against the first 16 repairs (fixes/C10-gap-anchor-prune-head.diff): a start node on an empty slot that is not the first
+   node known for its root never met the blocks built on that root (they hang off the root's first node). Head() from a justified
+   empty-slot node stayed on the empty slots ... *)
+Theorem C10_head_from_gap_start_refuted :
+  last_out (run_from all_but_gaphead (init0 false) (removelast h_gap_fail ++ [OHead])) = Ok (RRef (3, 5)) /\
+  last_exp (spec_from (init0 false) (removelast h_gap_fail ++ [OHead])) = EVal (RRef (5, 6)) /\
+  last_out (run_from fixed (init0 false) (removelast h_gap_fail ++ [OHead])) = Ok (RRef (5, 6)) /\
+  last_out (run_from all_but_gaphead (init0 false) (firstn 7 h_gap_fail ++ [OSetPin 3 4; OHead])) = Ok (RRef (3, 5)) /\
+  last_exp (spec_from (init0 false) (firstn 7 h_gap_fail ++ [OSetPin 3 4; OHead])) = EVal (RRef (5, 6)) /\
+  last_out (run_from fixed (init0 false) (firstn 7 h_gap_fail ++ [OSetPin 3 4; OHead])) = Ok (RRef (5, 6)).
+Proof. exact head_from_gap_start_refuted. Qed.
+(* ... and a legitimate update whose finalized and justified checkpoints both sit on empty slots was refused ("not a viable head":
+   OnPrune asks for a head from the empty-slot anchor), leaving the checkpoints moved, nothing pruned, the head on empty slots.
+   Blocks 2@1, 3@6, 4@9 (4 carries justified 2, finalized 1); finalized (root 2, epoch 1), justified (root 3, epoch 2), 4 slots/epoch.
+   Last conjunct: on the repaired code the whole history, with later blocks, votes and queries, is what the Spec says. *)
+Theorem C10_gap_anchor_prune_head_refuted :
+  last_out (run_from all_but_gaphead (init0 false) h_gap_fin) = Err /\
+  last_exp (spec_from (init0 false) h_gap_fin) = EVal RUnit /\
+  last_out (run_from fixed (init0 false) h_gap_fin) = Ok RUnit /\
+  last_out (run_from all_but_gaphead (init0 false) (h_gap_fin ++ [OHead])) = Ok (RRef (3, 9)) /\
+  last_exp (spec_from (init0 false) (h_gap_fin ++ [OHead])) = EVal (RRef (4, 9)) /\
+  last_out (run_from fixed (init0 false) (h_gap_fin ++ [OHead])) = Ok (RRef (4, 9)) /\
+  refines sel_c10 true (init0 false) (h_gap_fin ++ [OHead; OFin; OJust; OPin; OGetSlot 1; OGetSlot 2; OChain 3 8; OBlock 4 5 10 2 1; OAtt 2 5 10; OHead]) = true.
+Proof. exact gap_anchor_prune_head_refuted. Qed.
 (* after a sink failure the Spec goes on: the tree is what was not acknowledged; later heads, queries, votes, blocks and the
    next (complete) prune are what the Spec says, on this history *)
 Example C10_after_sink_failure_nonvacuous :
